@@ -12,6 +12,7 @@ import (
 	"io"
 	"math/rand"
 	"os"
+	"strings"
 	"unsafe"
 
 	"github.com/tdewolff/parse/v2"
@@ -66,7 +67,10 @@ func (r *chunkReader) Read(p []byte) (int, error) {
 	return n, nil
 }
 
-var ctors = []string{"bytes_spare", "bytes_tight", "string", "reader_bytes", "reader_plain", "reader_fail"}
+// reader_sized*: readers of the standard library that know their total size (Size(), Len(), ReadAt, Seek) -- fresh, and after
+// the caller has consumed a prefix (a byte order mark, a header): the cursor ranges over exactly what the reader still delivers
+var ctors = []string{"bytes_spare", "bytes_tight", "string", "reader_bytes", "reader_plain", "reader_fail",
+	"reader_sized", "reader_sized_mid", "reader_bytesreader_mid", "reader_section_mid"}
 
 // inst is one cursor under test plus what the harness knows about the caller's memory.
 type inst struct {
@@ -118,6 +122,20 @@ func build(kind, ctor string, data []byte) *inst {
 		r = &chunkReader{data: append([]byte{}, data...), chunk: 2, fail: true}
 		in.failed = true
 		in.data = nil
+	case "reader_sized":
+		r = strings.NewReader(string(data))
+	case "reader_sized_mid":
+		sr := strings.NewReader("\xEF\xBB\xBF" + string(data))
+		io.CopyN(io.Discard, sr, 3)
+		r = sr
+	case "reader_bytesreader_mid":
+		br := bytes.NewReader(append([]byte("#!"), data...))
+		br.Seek(2, io.SeekStart)
+		r = br
+	case "reader_section_mid":
+		sc := io.NewSectionReader(bytes.NewReader(append(append([]byte("head"), data...), "tail"...)), 3, int64(len(data))+1)
+		sc.Read(make([]byte, 1))
+		r = sc
 	}
 	if len(data) == 0 {
 		in.spare = false // nothing is borrowed for an empty input
